@@ -1,6 +1,7 @@
 import LentilVerif.Model.Field
 import LentilVerif.Lemmas.Extent
 import LentilVerif.Lemmas.Field
+import LentilVerif.Lemmas.Reduce
 import Mathlib.Algebra.Ring.Defs
 import Mathlib.Algebra.GroupWithZero.Defs
 import Mathlib.Algebra.Group.Basic
@@ -80,6 +81,25 @@ theorem array_center_of_arrayExtent (s0 s1 o0 o1 : Int) :
     arrayCenter (arrayExtent s0 s1 o0 o1) = (o0, o1) := by
   rw [arrayExtent_eq, arrayCenter_eq]; simp only [Prod.mk.injEq]; omega
 
+/-- the NumPy statement `self.data[self_slice] * other.data[other_slice]` is well-formed whenever the (valid) extents intersect:
+both slices are non-empty, inside their arrays, and of equal shape (the model reads the shape from the first slice and only
+the start of the second, so this is stated separately) -/
+theorem mul_slices_wellformed (a b : Extent) (ha : a.rmin ≤ a.rmax ∧ a.cmin ≤ a.cmax) (hb : b.rmin ≤ b.rmax ∧ b.cmin ≤ b.cmax)
+    (h : intersect a b = true) :
+    (0 ≤ (intersectionSlices a b).1.1.1 ∧ (intersectionSlices a b).1.1.1 < (intersectionSlices a b).1.1.2 ∧
+      (intersectionSlices a b).1.1.2 ≤ a.nrow) ∧
+    (0 ≤ (intersectionSlices a b).1.2.1 ∧ (intersectionSlices a b).1.2.1 < (intersectionSlices a b).1.2.2 ∧
+      (intersectionSlices a b).1.2.2 ≤ a.ncol) ∧
+    (0 ≤ (intersectionSlices a b).2.1.1 ∧ (intersectionSlices a b).2.1.1 < (intersectionSlices a b).2.1.2 ∧
+      (intersectionSlices a b).2.1.2 ≤ b.nrow) ∧
+    (0 ≤ (intersectionSlices a b).2.2.1 ∧ (intersectionSlices a b).2.2.1 < (intersectionSlices a b).2.2.2 ∧
+      (intersectionSlices a b).2.2.2 ≤ b.ncol) ∧
+    (intersectionSlices a b).1.1.2 - (intersectionSlices a b).1.1.1 = (intersectionSlices a b).2.1.2 - (intersectionSlices a b).2.1.1 ∧
+    (intersectionSlices a b).1.2.2 - (intersectionSlices a b).1.2.1 = (intersectionSlices a b).2.2.2 - (intersectionSlices a b).2.2.1 :=
+  slices_wellformed a b ha hb h
+example : intersect ⟨-1, 0, -1, 0⟩ ⟨0, 1, 0, 2⟩ = true ∧
+    intersectionSlices ⟨-1, 0, -1, 0⟩ ⟨0, 1, 0, 2⟩ = (((1, 2), (1, 2)), ((0, 1), (0, 1))) := by decide
+
 /-! ## Products -/
 section mul
 variable {K : Type} [MulZeroClass K]
@@ -154,48 +174,194 @@ negative extents, where `boundary`'s `rmax = 0` start only enlarges the box with
 the corner in which the bounding box is the single origin pixel, where NumPy raises.) -/
 theorem merge_emb {K : Type} [AddZeroClass K] (fs : List (Fld K)) (hne : fs ≠ [])
     (hpos : ∀ f ∈ fs, 0 < f.arr.s0 ∧ 0 < f.arr.s1) (p : Fld K) (h : mergeL fs = some p) (r c : Int) :
-    p.emb r c = sumList fs (fun f => f.emb r c) := by
-  unfold mergeL at h
-  simp only [] at h
-  generalize hb : boundaryL (fs.map Fld.extent) = b at h
-  have hcont : ∀ f ∈ fs, b.rmin ≤ f.extent.rmin ∧ f.extent.rmax ≤ b.rmax ∧ b.cmin ≤ f.extent.cmin ∧ f.extent.cmax ≤ b.cmax := by
-    intro f hf; have := boundary_contains fs f hf; simp only [hb] at this; exact this
-  have hv : b.rmin ≤ b.rmax ∧ b.cmin ≤ b.cmax := by
-    obtain ⟨f, hf⟩ := List.exists_mem_of_ne_nil fs hne
-    have h1 := hcont f hf
-    have h2 := f.extent_valid (hpos f hf)
+    p.emb r c = sumList fs (fun f => f.emb r c) :=
+  mergeL_emb fs hne hpos p h r c
+
+/-- non-vacuity of `merge_emb` on **wholly negative extents**: the merge exists, its box reaches up to row/column 0
+(`boundary`'s initial `rmax = cmax = 0`), and it still embeds as the sum -/
+example : (∀ f ∈ [Ex.N1, Ex.N2], 0 < f.arr.s0 ∧ 0 < f.arr.s1) ∧
+    Ex.N1.extent = ⟨-6, -5, -6, -5⟩ ∧ Ex.N2.extent = ⟨-8, -8, -4, -2⟩ ∧
+    (mergeL [Ex.N1, Ex.N2]).map (fun p => (p.extent, p.emb (-5) (-5), p.emb (-8) (-3), p.emb 0 0)) =
+      some (⟨-8, 0, -6, 0⟩, Ex.N1.emb (-5) (-5) + Ex.N2.emb (-5) (-5), Ex.N1.emb (-8) (-3) + Ex.N2.emb (-8) (-3), 0) := by
+  decide
+/-- the excluded corner is real: a lone one-element field at the origin cannot be merged (NumPy raises there) -/
+example : (mergeL [(⟨⟨1, 1, fun _ _ => (5 : Int)⟩, 0, 0⟩ : Fld Int)]).isNone = true := by decide
+
+/-! ## Bounding box (`lentil.field.boundary`) -/
+
+/-- `boundary` in general: the box contains every extent, and each side is the tightest such bound **except** for the two
+caveats of the implementation's initial value `(sys.maxsize, 0, sys.maxsize, 0)` (generated `Gen.boundaryInit`):
+`rmax`/`cmax` are never below 0 and `rmin`/`cmin` never above `sys.maxsize = 2^63 − 1`. Each side is therefore either
+attained by a member or stuck at its initial value. -/
+theorem boundary_is_bbox_general (es : List Extent) :
+    (∀ e ∈ es, (boundaryL es).rmin ≤ e.rmin ∧ e.rmax ≤ (boundaryL es).rmax ∧
+               (boundaryL es).cmin ≤ e.cmin ∧ e.cmax ≤ (boundaryL es).cmax) ∧
+    ((boundaryL es).rmin ≤ 9223372036854775807 ∧ 0 ≤ (boundaryL es).rmax ∧
+     (boundaryL es).cmin ≤ 9223372036854775807 ∧ 0 ≤ (boundaryL es).cmax) ∧
+    ((boundaryL es).rmin = 9223372036854775807 ∨ ∃ e ∈ es, e.rmin = (boundaryL es).rmin) ∧
+    ((boundaryL es).rmax = 0 ∨ ∃ e ∈ es, e.rmax = (boundaryL es).rmax) ∧
+    ((boundaryL es).cmin = 9223372036854775807 ∨ ∃ e ∈ es, e.cmin = (boundaryL es).cmin) ∧
+    ((boundaryL es).cmax = 0 ∨ ∃ e ∈ es, e.cmax = (boundaryL es).cmax) := by
+  rw [boundaryL_eq, boundaryInit_eq]
+  refine ⟨fun e he => fold_contains es _ e he, ?_, fold_attained es _⟩
+  have := fold_mono es ⟨9223372036854775807, 0, 9223372036854775807, 0⟩
+  simp only at this
+  exact ⟨this.1, this.2.1, this.2.2.1, this.2.2.2⟩
+
+/-- **`boundary` is exactly the bounding box** `(min rmin, max rmax, min cmin, max cmax)` (`IsBBox`: contains every
+member, every side attained by a member) when some member reaches row ≥ 0 and some member reaches column ≥ 0 on the max
+side, and some member starts at or below `sys.maxsize` on each min side. Without the first two hypotheses the statement
+is false (wholly negative extents: `rmax = 0`), see `boundary_is_bbox_general` and the `example` below it. -/
+theorem boundary_is_bbox (es : List Extent)
+    (hr : ∃ e ∈ es, 0 ≤ e.rmax) (hc : ∃ e ∈ es, 0 ≤ e.cmax)
+    (hr' : ∃ e ∈ es, e.rmin ≤ 9223372036854775807) (hc' : ∃ e ∈ es, e.cmin ≤ 9223372036854775807) :
+    IsBBox (boundaryL es) es := by
+  obtain ⟨hcont, _, a1, a2, a3, a4⟩ := boundary_is_bbox_general es
+  refine ⟨hcont, ?_, ?_, ?_, ?_⟩
+  · rcases a1 with h | h
+    · obtain ⟨e, he, h1⟩ := hr'; exact ⟨e, he, by have := (hcont e he).1; omega⟩
+    · exact h
+  · rcases a2 with h | h
+    · obtain ⟨e, he, h1⟩ := hr; exact ⟨e, he, by have := (hcont e he).2.1; omega⟩
+    · exact h
+  · rcases a3 with h | h
+    · obtain ⟨e, he, h1⟩ := hc'; exact ⟨e, he, by have := (hcont e he).2.2.1; omega⟩
+    · exact h
+  · rcases a4 with h | h
+    · obtain ⟨e, he, h1⟩ := hc; exact ⟨e, he, by have := (hcont e he).2.2.2; omega⟩
+    · exact h
+
+/-- non-vacuity: two extents straddling the origin; the box is their exact bounding box -/
+example : boundaryL [⟨-3, 1, 2, 4⟩, ⟨0, 2, -5, 0⟩] = ⟨-3, 2, -5, 4⟩ := by decide
+/-- the caveat is real: for wholly negative extents `boundary` reaches up to row/column 0 -/
+example : boundaryL [⟨-9, -7, -4, -3⟩, ⟨-6, -5, -8, -6⟩] = ⟨-9, 0, -8, 0⟩ := by decide
+
+/-! ## Reduce -/
+section reduce
+variable {K : Type}
+
+/-- **`_disjoint` terminates with fuel = number of groups** (every step removes one group): the result is a fixed
+point — no pair of groups with intersecting cached extents is left -/
+theorem reduce_terminates (fuel : Nat) (gs : List (Group K)) (h : gs.length ≤ fuel) :
+    firstPair (disjoint fuel gs) = none :=
+  disjoint_fixed fuel gs h
+
+/-- a fixed point of `_disjoint` has pairwise non-intersecting cached extents -/
+theorem reduce_fixed_point_disjoint (gs : List (Group K)) (h : firstPair gs = none)
+    (m k : Nat) (hmk : m < k) (hk : k < gs.length) :
+    intersect (gs[m]'(by omega)).extent gs[k].extent = false :=
+  firstPair_none gs h m k hmk hk
+
+/-- the group invariant (`Group.wf`: member fields of positive shape; a singleton group caches its field's extent; a
+group of ≥ 2 fields caches `boundary` of its members) holds initially and is preserved by every step of `_disjoint` -/
+theorem reduce_group_invariant (fs : List (Fld K)) (hpos : ∀ f ∈ fs, 0 < f.arr.s0 ∧ 0 < f.arr.s1) (fuel : Nat) :
+    ∀ g ∈ disjoint fuel (fs.map Group.single), g.wf := by
+  apply disjoint_wf
+  intro g hg
+  obtain ⟨f, hf, rfl⟩ := List.mem_map.mp hg
+  exact Group.single_wf f (hpos f hf)
+
+/-- the step itself: merging two well-formed groups gives a well-formed group (≥ 2 fields, extent = `boundary`) -/
+theorem reduce_step_invariant (a b : Group K) (ha : a.wf) (hb : b.wf) :
+    (mergeGroups a b).wf ∧ 2 ≤ (mergeGroups a b).fields.length ∧
+    (mergeGroups a b).extent = boundaryL ((mergeGroups a b).fields.map Fld.extent) := by
+  have h := mergeGroups_wf a b ha hb
+  refine ⟨h, ?_, rfl⟩
+  rcases h.ext with ⟨f, hf, _⟩ | ⟨hl, _⟩
+  · have h1 := List.length_pos_of_ne_nil ha.ne_nil
+    have h2 := List.length_pos_of_ne_nil hb.ne_nil
+    have := congrArg List.length hf
+    simp only [mergeGroups, List.length_append, List.length_singleton] at this
     omega
-  cases hs : Gen.mergeShape b.rmin b.rmax b.cmin b.cmax with
-  | none => simp [hs] at h
-  | some shp =>
-    simp only [hs, Option.some.injEq] at h
-    subst h
-    rw [emb_mk, merge_box b shp hs hv]
-    unfold embAt
-    by_cases hin : b.inb r c = true
-    · rw [if_pos hin]
-      apply sumList_congr
-      intro f hf
-      have hc := hcont f hf
-      have fe : f.emb r c = embAt f.extent f.arr.get r c := rfl
-      rw [fe]; unfold embAt
-      have hg : (decide (f.extent.rmin - b.rmin ≤ r - b.rmin) && decide (r - b.rmin < f.extent.rmax - b.rmin + 1) &&
-          decide (f.extent.cmin - b.cmin ≤ c - b.cmin) && decide (c - b.cmin < f.extent.cmax - b.cmin + 1)) = f.extent.inb r c := by
-        rw [Bool.eq_iff_iff, Extent.inb_iff]; simp only [Bool.and_eq_true, decide_eq_true_eq]; omega
-      have hx : ∀ (x m i : Int), x - m - (i - m) = x - i := by intros; omega
-      simp only [hg, hx]
-    · rw [if_neg hin]
-      have : sumList fs (fun f => f.emb r c) = sumList fs (fun _ => (0 : K)) := by
-        apply sumList_congr
-        intro f hf
-        have hc := hcont f hf
-        have fe : f.emb r c = embAt f.extent f.arr.get r c := rfl
-        rw [fe]; unfold embAt
-        have : f.extent.inb r c = false := by
-          rw [Bool.eq_false_iff]; intro hh; rw [Extent.inb_iff] at hh
-          apply hin; rw [Extent.inb_iff]; omega
-        simp [this]
-      rw [this, sumList_zero]
+  · exact hl
+
+end reduce
+
+section reduce_out
+variable {K : Type} [AddCommMonoid K]
+
+/-- **the reduced fields are pairwise non-overlapping**: for positive-shape inputs for which no merge hits the
+single-origin-pixel corner (every element of `reduce fs` is a field: `reduce fs = out.map some`), the extents of any two
+output fields do not intersect -/
+theorem reduce_disjoint (fs : List (Fld K)) (hpos : ∀ f ∈ fs, 0 < f.arr.s0 ∧ 0 < f.arr.s1)
+    (out : List (Fld K)) (hout : reduce fs = out.map some) (i j : Nat) (hij : i < j) (hj : j < out.length) :
+    intersect (out[i]'(by omega)).extent out[j].extent = false := by
+  rw [reduce_eq] at hout
+  have hwf := reduce_group_invariant fs hpos fs.length
+  obtain ⟨hext, _⟩ := map_out_spec _ out hwf hout
+  have hfix := disjoint_fixed fs.length (fs.map Group.single) (by rw [List.length_map]; exact Nat.le_refl _)
+  have hlen : out.length = (disjoint fs.length (fs.map Group.single)).length := by
+    have := congrArg List.length hext; simpa using this
+  have := firstPair_none _ hfix i j hij (by omega)
+  have e1 := List.getElem_of_eq hext (i := i) (by rw [List.length_map]; omega)
+  have e2 := List.getElem_of_eq hext (i := j) (by rw [List.length_map]; omega)
+  simp only [List.getElem_map] at e1 e2
+  rw [e1, e2]; exact this
+
+/-- … hence no pixel of the plane lies in two output fields -/
+theorem reduce_no_common_pixel (fs : List (Fld K)) (hpos : ∀ f ∈ fs, 0 < f.arr.s0 ∧ 0 < f.arr.s1)
+    (out : List (Fld K)) (hout : reduce fs = out.map some) (i j : Nat) (hij : i < j) (hj : j < out.length) (r c : Int) :
+    ¬ ((out[i]'(by omega)).extent.mem r c ∧ out[j].extent.mem r c) := by
+  have h := not_intersect_inb _ _ (reduce_disjoint fs hpos out hout i j hij hj) r c
+  rw [Bool.eq_false_iff] at h
+  intro hh; apply h
+  rw [Bool.and_eq_true, Extent.inb_iff_mem, Extent.inb_iff_mem]; exact hh
+
+/-- `reduce_disjoint` in `List.Pairwise` / `Extent.inb` form (the form consumed by C07/C03): no pixel of the plane lies in
+two of the reduced fields -/
+theorem reduce_pairwise_disjoint (data : List (Fld K)) (hpos : ∀ f ∈ data, 0 < f.arr.s0 ∧ 0 < f.arr.s1)
+    (gs : List (Fld K)) (hred : reduce data = gs.map some) :
+    gs.Pairwise (fun a b => ∀ r c, ¬(a.extent.inb r c = true ∧ b.extent.inb r c = true)) := by
+  rw [List.pairwise_iff_getElem]
+  intro i j hi hj hij r c hh
+  have h := not_intersect_inb _ _ (reduce_disjoint data hpos gs hred i j hij hj) r c
+  rw [Bool.eq_false_iff] at h
+  apply h
+  rw [Bool.and_eq_true]; exact hh
+
+/-- **reduce preserves the total**: at every pixel of the infinite plane the sum of the embeddings of the output fields
+equals the sum of the embeddings of the input fields (same hypotheses) -/
+theorem reduce_total (fs : List (Fld K)) (hpos : ∀ f ∈ fs, 0 < f.arr.s0 ∧ 0 < f.arr.s1)
+    (out : List (Fld K)) (hout : reduce fs = out.map some) (r c : Int) :
+    sumList out (fun f => f.emb r c) = sumList fs (fun f => f.emb r c) := by
+  rw [reduce_eq] at hout
+  have hwf := reduce_group_invariant fs hpos fs.length
+  obtain ⟨_, hemb⟩ := map_out_spec _ out hwf hout
+  rw [sumList_eq_sum, sumList_eq_sum, hemb r c]
+  exact (disjoint_total (fun f => f.emb r c) fs.length _).trans (single_total _ fs)
+
+/-- `reduce` never returns more fields than it was given, and returns one field per final group -/
+theorem reduce_length_le (fs : List (Fld K)) : (reduce fs).length ≤ fs.length := by
+  rw [reduce_eq, List.length_map]
+  have := disjoint_induction (K := K) (fun gs => gs.length ≤ fs.length)
+    (fun gs m k _ hk _ hP => by rw [step_length gs m k _ hk]; omega) fs.length (fs.map Group.single)
+    (by rw [List.length_map]; exact Nat.le_refl _)
+  exact this
+
+/-! non-vacuity of the `reduce` theorems: `A` and `B` share a pixel, `C` is far away (`Lentil.Ex` in Lemmas/Reduce.lean) -/
+example : Ex.A.extent = ⟨-1, 0, -1, 0⟩ ∧ Ex.B.extent = ⟨0, 1, 0, 2⟩ ∧ Ex.C.extent = ⟨5, 5, -6, -5⟩ ∧
+    Ex.D.extent = ⟨-1, -1, 1, 2⟩ := by decide
+/-- the hypotheses of `reduce_disjoint`/`reduce_total` are satisfiable by a non-trivial collection: three fields, one
+merge, two output fields -/
+example : (∀ f ∈ [Ex.A, Ex.C, Ex.B], 0 < f.arr.s0 ∧ 0 < f.arr.s1) ∧
+    ∃ out : List (Fld Int), reduce [Ex.A, Ex.C, Ex.B] = out.map some ∧ out.length = 2 := by
+  refine ⟨by decide, ?_⟩
+  obtain ⟨out, h⟩ := exists_eq_map_some (reduce [Ex.A, Ex.C, Ex.B]) (by decide)
+  refine ⟨out, h, ?_⟩
+  have := congrArg List.length h
+  rw [List.length_map] at this
+  rw [← this]; decide
+/-- … and what comes out: the merged box of `A ∪ B` with `A(0,0) + B(0,0) = 4 + 10` at the shared pixel, and `C` untouched -/
+example : (reduce [Ex.A, Ex.C, Ex.B]).map (fun o => o.map fun p => (p.extent, p.emb 0 0, p.emb 5 (-5))) =
+    [some (⟨-1, 1, -1, 2⟩, 14, 0), some (⟨5, 5, -6, -5⟩, 0, 8)] := by decide
+/-- the bounding box of a merged group can swallow a field that met neither member: `D` joins `A ∪ B` in a second step -/
+example : (reduce [Ex.A, Ex.B, Ex.D]).map (fun o => o.map fun p => (p.extent, p.emb (-1) 1)) =
+    [some (⟨-1, 1, -1, 2⟩, 100)] := by decide
+/-- fixed point / termination on the same collection, with the minimal fuel -/
+example : firstPair (disjoint 3 ([Ex.A, Ex.C, Ex.B].map Group.single)) = none ∧
+    firstPair ([Ex.A, Ex.C, Ex.B].map Group.single) = some (0, 2) := by decide
+
+end reduce_out
 
 /-! ## Insertion -/
 section insert
@@ -224,10 +390,32 @@ theorem insert_emb (f : Fld K) (out : Arr K) (w : K) (post : K → K) (i j : Int
     · rw [if_pos hb, if_pos hb]; rfl
     · rw [if_neg hb, if_neg hb, add_zero]
 
+/-- the NumPy statement `out[out_slice] += field.data[field_slice]` is well-formed whenever `insert` reaches it: both
+slices are non-empty, inside their arrays and of equal shape — for every field shape, offset and target shape (the model
+`insertArr` reads only the slice starts, so the slice *stops* of the source are pinned down here) -/
+theorem insert_slices_wellformed (s0 s1 o0 o1 S0 S1 : Int) (orow ocol frow fcol : Int × Int)
+    (h : Gen.insertIdx s0 s1 o0 o1 S0 S1 = some ((orow, ocol), (frow, fcol))) :
+    (0 ≤ orow.1 ∧ orow.1 < orow.2 ∧ orow.2 ≤ S0) ∧ (0 ≤ ocol.1 ∧ ocol.1 < ocol.2 ∧ ocol.2 ≤ S1) ∧
+    (0 ≤ frow.1 ∧ frow.2 ≤ s0) ∧ (0 ≤ fcol.1 ∧ fcol.2 ≤ s1) ∧
+    frow.2 - frow.1 = orow.2 - orow.1 ∧ fcol.2 - fcol.1 = ocol.2 - ocol.1 :=
+  insertIdx_wellformed s0 s1 o0 o1 S0 S1 orow ocol frow fcol h
+/-- non-vacuity: a 4×3 field at (−2, 2) in a 3×4 target is clipped at the top and on the right -/
+example : Gen.insertIdx 4 3 (-2) 2 3 4 = some (((0, 1), (3, 4)), ((3, 4), (0, 1))) := by decide
+
 /-- the shape of the target never changes -/
 theorem insert_shape (f : Fld K) (out : Arr K) (w : K) (post : K → K) :
     (insertArr f out w post).s0 = out.s0 ∧ (insertArr f out w post).s1 = out.s1 := by
   unfold insertArr; split <;> simp
+
+/-- non-vacuity of `insert_emb` with a field **wholly outside** the target (the D20 witness: this used to raise):
+the generated index block returns "nothing to add" and every sample of the target is unchanged -/
+example : Gen.insertIdx 2 2 9 9 3 3 = none ∧
+    (∀ i ∈ [0, 1, 2], ∀ j ∈ [0, 1, 2], (insertArr Ex.O Ex.T 2 id).get i j = Ex.T.get i j) ∧
+    Ex.O.extent.inb (1 - Ex.T.s0 / 2) (1 - Ex.T.s1 / 2) = false := by decide
+/-- … and a clipped one: a 2×2 field at (−1, 1) in a 3×3 target — only its lower row (values 2, 4) lands, at (0, 1), (0, 2) -/
+example : (insertArr (⟨⟨2, 2, fun i j => 1 + i + 2 * j⟩, -1, 1⟩ : Fld Int) Ex.T 10 id).get 0 1 = Ex.T.get 0 1 + 2 * 10 ∧
+    (insertArr (⟨⟨2, 2, fun i j => 1 + i + 2 * j⟩, -1, 1⟩ : Fld Int) Ex.T 10 id).get 0 2 = Ex.T.get 0 2 + 4 * 10 ∧
+    (insertArr (⟨⟨2, 2, fun i j => 1 + i + 2 * j⟩, -1, 1⟩ : Fld Int) Ex.T 10 id).get 1 2 = Ex.T.get 1 2 := by decide
 
 end insert
 
